@@ -7,7 +7,7 @@ recorded no-overflow side conditions).  All paths of a function are enumerated; 
 (path condition, value) pair.  Anything the interpreter does not understand raises Untranslatable,
 which the caller reports as *inconclusive* (never a silent skip).
 """
-import re, z3
+import os, re, z3
 
 
 class Untranslatable(Exception):
@@ -33,8 +33,55 @@ class Fn:
             self.blocks[m.group(1)] = [l.strip() for l in m.group(2).strip().split('\n')]
 
 
+STD_ENUMS = {'Option': ['None', 'Some'], 'Result': ['Ok', 'Err'], 'ControlFlow': ['Continue', 'Break']}
+
+
+def load_enum_table(repo):
+    """variant order of every enum declared in geo / geo-types, read from the current source"""
+    import glob
+    table = {}
+    for f in glob.glob(os.path.join(repo, 'geo*', 'src', '**', '*.rs'), recursive=True):
+        src = re.sub(r'//[^\n]*', '', open(f, errors='replace').read())
+        for m in re.finditer(r'\benum (\w+)\s*(?:<[^{]*>)?\s*(?:where[^{]*)?\{', src):
+            # balanced body
+            i, depth = m.end(), 1
+            while i < len(src) and depth:
+                depth += {'{': 1, '}': -1}.get(src[i], 0)
+                i += 1
+            body = src[m.end():i - 1]
+            # top-level variants: strip nested (), {} payloads and attributes
+            flat, d = '', 0
+            for ch in body:
+                if ch in '({[':
+                    d += 1
+                elif ch in ')}]':
+                    d -= 1
+                elif d == 0:
+                    flat += ch
+            vs = [re.sub(r'#\s*|=.*', '', v).strip().split()[-1] for v in flat.split(',') if re.search(r'\w', re.sub(r'=.*', '', v))]
+            table.setdefault(m.group(1), []).append(vs)
+    return table
+
+
+class ConstItem(Fn):
+    """a promoted constant `const NAME: TYPE = { bb0: {...} }`: a body without arguments"""
+    def __init__(self, name, text):
+        self.name, self.text, self.args, self.blocks = name, text, [], {}
+        for m in re.finditer(r'^    (bb\d+)(?: \(cleanup\))?: \{\n(.*?)^    \}', text, re.S | re.M):
+            self.blocks[m.group(1)] = [l.strip() for l in m.group(2).strip().split('\n')]
+
+
 class Mir:
-    def __init__(self, paths):
+    def promoted(self, fn_name, k):
+        """the promoted constant number k of function fn_name, or None"""
+        for crate, text in self.text.items():
+            m = re.search(r'^const ' + re.escape(fn_name) + r'::promoted\[%d\]: [^\n]* = \{\n.*?^\}\n' % k, text, re.S | re.M)
+            if m:
+                return ConstItem(fn_name + '::promoted[%d]' % k, m.group(0))
+        return None
+
+    def __init__(self, paths, repo=None):
+        self.enums = load_enum_table(repo) if repo else {}
         self.text = {}
         for k, p in paths.items():
             self.text[k] = open(p).read()
@@ -91,9 +138,25 @@ class IterMutV:
 
 
 class Adaptor:
-    """iterator adaptor: kind in ('map', 'flat_map'), inner iterator, closure"""
+    """iterator adaptor: kind in ('map', 'flat_map', 'filter', 'skip', 'take', 'rev', 'enumerate',
+    'chain', 'copied'), inner iterator, closure / count / second iterator"""
     def __init__(self, kind, inner, closure):
         self.kind, self.inner, self.closure = kind, inner, closure
+
+
+class SliceView:
+    """a `&mut [T]` window base[start:end] (only concrete indices: used by structural obligations)"""
+    def __init__(self, base, start, end):
+        self.base, self.start, self.end = base, start, end
+
+    def items(self):
+        return self.base[self.start:self.end]
+
+
+class FnItem:
+    """a function item used as a value (e.g. `iter.map(CachedEnvelope::new)`)"""
+    def __init__(self, path):
+        self.path = path
 
 
 def clone_val(v):
@@ -350,7 +413,16 @@ class Interp:
             return []
         if re.fullmatch(r'const ".*"', o):
             return ('str-const', o)
-        if re.fullmatch(r'const .*::promoted\[\d+\]', o):
+        m = re.fullmatch(r'const .*::promoted\[(\d+)\]', o)
+        if m:
+            item = self.mir.promoted(env.get('__fn__', ''), int(m.group(1))) if isinstance(env, dict) else None
+            if item is not None:
+                try:
+                    outs = self.run(item, {}, z3.BoolVal(True), 0)
+                    if len(outs) == 1:
+                        return outs[0][1]
+                except Untranslatable:
+                    pass
             return ('promoted-constant', o)
         if o == 'const true':
             return True
@@ -375,9 +447,44 @@ class Interp:
         m = re.fullmatch(r'const ZeroSized: \{closure@([^}]*)\}', o)
         if m:
             return Closure(m.group(1), [])
+        if o and o[0] not in '_(*' and '::' in o:
+            return FnItem(o)
         g, _ = self.parse_place(env, o)
         v = g()
         return clone_val(v) if is_copy else v
+
+    def place_type(self, env, place):
+        """last path segment of the declared type of a place (for discriminant numbering), or None"""
+        place = place.strip()
+        m = re.fullmatch(r'\((?:.*): ([^()]*?)\)', place)
+        ty = m.group(1) if m else None
+        if ty is None:
+            m = re.fullmatch(r'\(?\*?(_\d+)\)?', place)
+            fn = env.get('__fnobj__') if isinstance(env, dict) else None
+            if m and fn is not None:
+                mm = re.search(r'let (?:mut )?%s: ([^;\n]*);' % m.group(1), fn.text) or re.search(r'[(, ]%s: ([^,)\n]*(?:<[^\n]*?>)?)[,)]' % m.group(1), fn.text.split('\n', 1)[0])
+                ty = mm.group(1) if mm else None
+        if ty is None:
+            return None
+        ty = re.sub(r'<.*', '', ty.strip().lstrip('&').replace('mut ', '').strip())
+        return ty.split('::')[-1]
+
+    def variant_index(self, variant, ty, legacy):
+        if variant in ('Less', 'Equal', 'Greater') and ty in (None, 'Ordering'):
+            return {'Less': 255, 'Equal': 0, 'Greater': 1}[variant]     # repr(i8): -1, 0, 1
+        cands = []
+        tables = dict((k, [v]) for k, v in STD_ENUMS.items())
+        for k, v in self.mir.enums.items():
+            tables.setdefault(k, []).extend(v)
+        if ty in tables:
+            cands = [vs.index(variant) for vs in tables[ty] if variant in vs]
+        if not cands:
+            cands = [vs.index(variant) for vss in tables.values() for vs in vss if variant in vs]
+        if cands and all(c == cands[0] for c in cands):
+            return cands[0]
+        if not self.mir.enums and variant in legacy:
+            return legacy[variant]
+        raise Untranslatable('cannot number variant %s of %s' % (variant, ty))
 
     def cmp(self, op, a, b):
         a, b = deref(a), deref(b)
@@ -399,7 +506,28 @@ class Interp:
             e = deref(self.parse_place(env, m.group(1))[0]())
             if not isinstance(e, Enum):
                 raise Untranslatable('discriminant of non-enum')
-            return ('discr', e.variant)
+            return ('discr', e.variant, self.place_type(env, m.group(1)))
+        m = re.fullmatch(r'(Add|Sub|Mul)WithOverflow\((.+)\)', rv) or re.fullmatch(r'(Add|Sub|Mul|Rem|Div)\((.+)\)', rv)
+        if m:
+            a, b = [self.operand(env, x) for x in split_args(m.group(2))]
+            if not (isinstance(a, int) and isinstance(b, int) and not isinstance(a, bool)):
+                raise Untranslatable('machine arithmetic on symbolic operands: ' + rv[:60])
+            if m.group(1) in ('Rem', 'Div') and b == 0:
+                raise Untranslatable('division by a concrete zero')
+            r = {'Add': a + b, 'Sub': a - b, 'Mul': a * b, 'Rem': a % b if b else 0, 'Div': a // b if b else 0}[m.group(1)]
+            if 'WithOverflow' in rv.split('(')[0]:
+                return [r, not (0 <= r < 2 ** 64)]      # usize indices / counters
+            return r
+        if re.fullmatch(r'[A-Z]\w*', rv):
+            return Enum(rv)                               # variant of an enum in scope (`use Ordering::*`)
+        m = re.fullmatch(r'PtrMetadata\((.+)\)', rv)
+        if m:
+            v = deref(self.operand(env, m.group(1)))
+            if isinstance(v, SliceView):
+                return v.end - v.start
+            if isinstance(v, list):
+                return len(v)
+            raise Untranslatable('PtrMetadata of an unmodelled value')
         m = re.fullmatch(r'Not\((.+)\)', rv)
         if m:
             v = self.operand(env, m.group(1))
@@ -505,6 +633,8 @@ class Interp:
             return [(pc, Ref(lambda l=d[0], k=d[1]: l[k]))]
         if re.fullmatch(r'<.* as IntoIterator>::into_iter', c) and isinstance(d[0], (SliceIter, Adaptor)):
             return [(pc, d[0])]
+        if re.fullmatch(r'<&(\[.*\]|Vec<.*>) as IntoIterator>::into_iter', c) and isinstance(d[0], list):
+            return [(pc, SliceIter(d[0]))]
         if re.fullmatch(r'<.* as Iterator>::next', c) and isinstance(d[0], SliceIter):
             it = d[0]
             if it.pos < len(it.items):
@@ -600,14 +730,60 @@ class Interp:
             return [(cur, [])]
         if re.fullmatch(r'Vec::<.*>::new', c):
             return [(pc, [])]
+        if re.fullmatch(r'std::mem::take::<&mut \[.*\]>', c) and isinstance(d[0], SliceView) and isinstance(argv[0], Ref) and argv[0].set:
+            v = d[0]
+            argv[0].set(SliceView(v.base, v.end, v.end))
+            return [(pc, v)]
+        if re.fullmatch(r'core::slice::<impl \[.*\]>::swap', c) and isinstance(d[0], SliceView):
+            v, i, j = d[0], d[1], d[2]
+            if not (isinstance(i, int) and isinstance(j, int)):
+                raise Untranslatable('slice::swap with symbolic indices')
+            if not (0 <= i < v.end - v.start and 0 <= j < v.end - v.start):
+                raise Halt(pc, ('panic', 'slice::swap index out of bounds'))
+            v.base[v.start + i], v.base[v.start + j] = v.base[v.start + j], v.base[v.start + i]
+            return [(pc, [])]
+        if re.fullmatch(r'core::slice::<impl \[.*\]>::split_first_mut', c) and isinstance(d[0], SliceView):
+            v = d[0]
+            if v.end == v.start:
+                return [(pc, Enum('None'))]
+            k = v.start
+            return [(pc, Enum('Some', [[Ref(lambda v=v, k=k: v.base[k], lambda x, v=v, k=k: v.base.__setitem__(k, x)), SliceView(v.base, k + 1, v.end)]]))]
+        if re.fullmatch(r'core::num::<impl usize>::saturating_sub', c) and isinstance(d[0], int) and isinstance(d[1], int):
+            return [(pc, max(d[0] - d[1], 0))]
         if re.fullmatch(r'Option::<.*>::expect', c):
             e = d[0]
             if isinstance(e, Enum) and e.variant == 'Some':
                 return [(pc, e.fields[0])]
             raise Untranslatable('expect of ' + repr(e))
-        m = re.fullmatch(r'<.* as Iterator>::(map|flat_map)::<.*>', c)
+        m = re.fullmatch(r'<.* as Iterator>::(map|flat_map|filter|chain)::<.*>', c)
         if m:
             return [(pc, Adaptor(m.group(1), d[0], d[1]))]
+        m = re.fullmatch(r'<.* as Iterator>::(skip|take)', c)
+        if m:
+            if not isinstance(d[1], int):
+                raise Untranslatable('skip/take with a symbolic count')
+            return [(pc, Adaptor(m.group(1), d[0], d[1]))]
+        m = re.fullmatch(r'<.* as Iterator>::(rev|enumerate|copied|cloned)(::<.*>)?', c)
+        if m:
+            return [(pc, Adaptor({'cloned': 'copied'}.get(m.group(1), m.group(1)), d[0], None))]
+        if re.fullmatch(r'<.* as Iterator>::fold::<.*>', c):
+            outs = []
+            for pc0, items, _ in self.drain(d[0], pc, depth):
+                states = [(pc0, d[1])]
+                for x in items:
+                    states = [(pc2, y) for pc1, acc in states for pc2, y in self.call_closure(d[2], [acc, deref(x)], pc1, depth)]
+                outs += states
+            return outs
+        if re.fullmatch(r'core::slice::<impl \[.*\]>::is_empty', c) or re.fullmatch(r'Vec::<.*>::is_empty', c):
+            v = d[0].items if isinstance(d[0], SliceIter) else d[0]
+            if not isinstance(v, list):
+                raise Untranslatable('is_empty of a non-list')
+            return [(pc, len(v) == 0)]
+        if re.fullmatch(r'<\w+ as (num_traits::)?(Bounded|Float)>::max_value', c) and not isinstance(T, BVTheory):
+            # the largest finite value: an uninterpreted constant; obligations state what it dominates
+            if not hasattr(self, 'max_value'):
+                self.max_value = T.var('F_MAX_VALUE')
+            return [(pc, self.max_value)]
         m = re.fullmatch(r'<.* as Iterator>::collect::<(.*)>', c)
         if m:
             target = m.group(1)
@@ -664,6 +840,8 @@ class Interp:
 
     def call_closure(self, clo, args, pc, depth):
         clo = deref(clo)
+        if isinstance(clo, FnItem):
+            return self.resolve(clo.path, args, pc, depth)
         if not isinstance(clo, Closure):
             raise Untranslatable('call of a non-closure value')
         pat = r'[^\n(]*\{closure#\d+\}'
@@ -678,8 +856,42 @@ class Interp:
         it = deref(it)
         if isinstance(it, SliceIter):
             return [(pc, [Ref(lambda x=x: x) for x in it.items], None)]
+        if isinstance(it, list):
+            return [(pc, [Ref(lambda x=x: x) for x in it], None)]
         if not isinstance(it, Adaptor):
             raise Untranslatable('collect() of an unmodelled iterator')
+        if it.kind in ('skip', 'take', 'rev', 'enumerate', 'copied'):
+            outs = []
+            for pc0, items, err0 in self.drain(it.inner, pc, depth):
+                if it.kind == 'skip':
+                    items = items[it.closure:]
+                elif it.kind == 'take':
+                    items = items[:it.closure]
+                elif it.kind == 'rev':
+                    items = items[::-1]
+                elif it.kind == 'enumerate':
+                    items = [[k, x] for k, x in enumerate(items)]
+                outs.append((pc0, items, err0))
+            return outs
+        if it.kind == 'chain':
+            return [(pc1, a + b, None) for pc0, a, _ in self.drain(it.inner, pc, depth) for pc1, b, _ in self.drain(it.closure, pc0, depth)]
+        if it.kind == 'filter':
+            outs = []
+            for pc0, inner_items, err0 in self.drain(it.inner, pc, depth):
+                states = [(pc0, [])]
+                for x in inner_items:
+                    nxt = []
+                    for pc1, acc in states:
+                        for pc2, keep in self.call_closure(it.closure, [Ref(lambda x=x: x)], pc1, depth):
+                            keep = deref(keep)
+                            if isinstance(keep, bool):
+                                nxt.append((pc2, acc + [x] if keep else acc))
+                            else:
+                                nxt.append((z3.And(pc2, keep), acc + [x]))
+                                nxt.append((z3.And(pc2, z3.Not(keep)), acc))
+                    states = nxt
+                outs += [(pc1, acc, None) for pc1, acc in states]
+            return outs
         outs = []
         for pc0, inner_items, err0 in self.drain(it.inner, pc, depth):
             states = [(pc0, [], None)]
@@ -713,6 +925,9 @@ class Interp:
     # ---- execution
     def run(self, fn, env, pc, depth):
         results = []
+        env = dict(env)
+        env['__fn__'] = fn.name
+        env['__fnobj__'] = fn
         work = [('bb0', env, pc)]
         steps = 0
         while work:
@@ -749,7 +964,7 @@ class Interp:
                                  'Point': 0, 'Line': 1, 'LineString': 2, 'Polygon': 3, 'MultiPoint': 4, 'MultiLineString': 5,
                                  'MultiPolygon': 6, 'GeometryCollection': 7, 'Rect': 8, 'Triangle': 9,
                                  'Empty': 0, 'ZeroDimensional': 1, 'OneDimensional': 2, 'TwoDimensional': 3}
-                        k = order[v[1]]
+                        k = self.variant_index(v[1], v[2] if len(v) > 2 else None, order)
                         tgt = None
                         for arm in arms:
                             key, t = [x.strip() for x in arm.split(':')]
